@@ -23,9 +23,14 @@ import numpy as np
 from harness import core, gen_scheme
 from harness.core import bool_, enc, erat, lst, rat, rats, strs
 from harness.props import _c17_gen as G
+from harness.props import _c17_regex as RX
 
 PROP = "C17"
 REQUIRED_THEOREMS = [
+    "generated_tuple_word_eq_model",
+    "generated_word_eq_model",
+    "generated_number_scientific_eq_model",
+    "generated_render_eq_model",
     "tuple_key_roundtrip",
     "tuple_key_roundtrip_iff",
     "tuple_key_roundtrip_counterexample",
@@ -34,6 +39,8 @@ REQUIRED_THEOREMS = [
     "interval_roundtrip_same_semantics",
     "interval_wellformed_defined",
     "relpath_resolves",
+    "dataset_filenames_injective_partial",
+    "dataset_filenames_counterexample",
     "refs_relative_to_result_folder",
     "refs_independent_of_history",
     "folder_movable",
@@ -53,6 +60,9 @@ TRUSTED = [
     "ruamel.yaml (scalars, strings, lists, string-keyed dicts come back unchanged; tuples come back as lists), netCDF4/"
     "xarray (to_netcdf/open_dataset), pandas (read_csv/to_csv), numpy savetxt: observed by sampling only",
     "pathlib / os.path on POSIX without symlinks below the scratch directory; Python re",
+    "translator harness/props/_c17_regex.py (re._parser parse tree of the live RegexPattern attributes -> regex AST, ast walk of "
+    "sanitize.py for match/fullmatch/findall and of yml.py for the key f-string) and the backtracking engine of "
+    "lean/GlotaranModel/C17Regex.lean (ASCII \\w \\d \\s): tied by the text stream (every string through Python's re and the engine)",
 ]
 ASSUMPTIONS = [
     "labels and dict keys in the model correspondence are ASCII (Python's \\w also matches non-ASCII letters; those are "
@@ -82,6 +92,13 @@ EXOTIC_KEYS = ("tuple-key-nonword-label", "label-looks-like-number", "str-key-lo
 import re as _re
 SCI_RE = _re.compile(r"[-+]?[0-9]*\.?[0-9]+([eE][-+]?[0-9]+)")
 TUPLE_WORD_RE = _re.compile(r"(\([.\s\w\d]+?[,.\s\w\d]*?\))")
+
+
+def generate(ck):
+    """regenerate lean/GlotaranModel/Generated/C17.lean (the three loader patterns as regex ASTs, how they are applied,
+    the key template of save_model) from VERIF_REPO"""
+    tables, _ = RX.generate(ck)
+    return tables
 
 
 # ================================================================================================
@@ -229,7 +246,7 @@ def scratch(chdir=False):
 # ================================================================================================
 # stream: text
 # ================================================================================================
-TEXT_ALPHABET = "()ab1_,. -+eE.x9"
+TEXT_ALPHABET = "()ab1_,. -+eE.x9()ab1_,. -+eE.x9\x1c\t"
 
 
 def check_text(ck, case, batch):
@@ -247,12 +264,20 @@ def check_text(ck, case, batch):
     except Exception as e:  # pragma: no cover
         impl = "raises:" + type(e).__name__
     batch.add(f"sankey {enc(s)}", impl, "sanitize-dict-keys", f"sanitize_dict_keys on key {s!r}", case)
+    # oracle (statement; the recorded classes spelled out in this file, not taken from the code): a string key that does not
+    # look like a tuple and a string that does not look like a scientific number are what they were after loading
+    ck.oracle_evals += 1
+    if not TUPLE_WORD_RE.match(s) and impl != enc_key(s):
+        ck.violation("plain-key-converted", f"sanitize_dict_keys turns the string key {s!r} (not of the form '(word...)') into {impl}", case)
     # public: convert_scientific_to_float
     try:
         r = sanitize.convert_scientific_to_float(s)
         impl = "float" if isinstance(r, float) else "none"
     except ValueError:
         impl = "error"
+    if not SCI_RE.match(s) and impl != "none":
+        ck.violation("plain-string-converted", f"convert_scientific_to_float({s!r}) gives {impl} for a string that is not of the form "
+                     "<number>e<digits>", case)
     batch.add(f"sci {enc(s)}", impl, "convert-scientific", f"convert_scientific_to_float({s!r})", case,
               post=lambda a: "none" if a == "none" else ("float" if a == "rest ~" else ("error" if a.startswith("rest ") else a)))
     # internal: the regexes themselves
@@ -1022,6 +1047,26 @@ def check_result(ck, case, batch):
     from ruamel.yaml import YAML
 
     ck.case(("result", json.dumps(case, sort_keys=True, default=str)))
+    # dataset labels that are not plain file names (path separators; "." whose file "..nc" has no suffix): the recorded class
+    # dataset-label-not-a-file-name (Lean: dataset_filenames_injective_partial / dataset_filenames_counterexample)
+    spec = case["base"].get("spec") if case["base"].get("kind") == "verif" else None
+    labels = [str(d.get("label")) for d in spec.get("datasets", []) if isinstance(d, dict)] if isinstance(spec, dict) else []
+    if any("/" in l or l in (".", "") for l in labels):
+        ck.count("result:dataset-label-not-a-file-name")
+        report = ck.violation
+        ck.violation = lambda key, what, payload: report("dataset-label-not-a-file-name", what, payload)
+        try:
+            return _check_result(ck, case, batch)
+        finally:
+            ck.violation = report
+    return _check_result(ck, case, batch)
+
+
+def _check_result(ck, case, batch):
+    from glotaran.io import (load_result, save_dataset, save_model, save_parameters, save_result, save_scheme, load_scheme)
+    from glotaran.io import SavingOptions
+    from ruamel.yaml import YAML
+
     with scratch(chdir=True) as root:
         def P(p, absolute=False):
             p = p.replace("$ROOT", root.as_posix())
